@@ -1,15 +1,26 @@
 #!/usr/bin/env python3
 """prints the markdown table of DESIGN.md section 6 from /verif/seeded/*/meta.json"""
 import glob, json
+
+
+def hit(lines):
+    return bool(lines) and all("rc=1" in l and "viol=0" not in l for l in lines)
+
+
 rows = []
 for f in sorted(glob.glob("/verif/seeded/*/meta.json")):
     m = json.load(open(f))
     oc = m["our_check"]
-    by = oc.get("also_detected_by") or ([m["property"]] if oc["detected"] else [])
+    by = [m["property"]] if oc["detected"] else []
+    for o, ls in (oc.get("other_check_results") or {}).items():
+        if hit(ls) and o not in by:
+            by.append(o)
+    det = ", ".join(by) if by else "**missed**"
+    if by and m.get("strengthened"):
+        det += " (after strengthening: %s)" % m["strengthened"]
     rows.append("| %s | %s | %s | %s | %s | %s |" % (
         m["name"], m["property"], m["change"].replace("|", "\\|"), m["needs_to_manifest"].replace("|", "\\|"),
-        "yes" if m["kept"] else "no (%s)" % json.dumps(m["confirmed"]),
-        (", ".join(by) + (" (after strengthening: %s)" % m["strengthened"] if m.get("strengthened") else "")) if oc["detected"] else "**missed**"))
+        "yes" if m["kept"] else "no (%s)" % json.dumps(m["confirmed"]), det))
 print("| change | property | edit | needs | confirmed (demo 0→1, baseline intact) | detected by (quick tier, seeds 0 and 1) |")
 print("|---|---|---|---|---|---|")
 print("\n".join(rows))
